@@ -35,6 +35,13 @@ def gen_cases(tier, seed):
     for _ in range(nm):
         h = rtgen.rtap_multi(rng)
         cases.append("rtap " + hx(h + bytes(rng.randrange(256) for _ in range(rng.choice([0, 4])))))
+    # well-formed chains in the sense of the chain specification (c09_chain): all defined fields in any namespace word,
+    # resets, vendor namespaces with arbitrary skip lengths, vendor after vendor, empty continuation words
+    n_chain = 0
+    for _ in range(6000 if q else 200000):
+        h = rtgen.rtap_chain(rng)
+        if h is not None:
+            cases.append("rtap " + hx(h + bytes(rng.randrange(256) for _ in range(rng.choice([0, 0, 5]))))); n_chain += 1
     # undefined bits 23..28 and namespace bits without EXT
     for _ in range(300 if q else 5000):
         p = rng.getrandbits(23) | (1 << rng.randrange(23, 31))
@@ -80,7 +87,7 @@ def gen_cases(tier, seed):
     for _ in range(200 if q else 5000):
         h = rtgen.rtap_single(rng.getrandbits(23), rng) if rng.random() < 0.6 else rtgen.rtap_multi(rng)
         cases.append("rssi " + hx(h))
-    return cases, {"single_word": n_single, "multi_word": nm, "total": len(cases)}
+    return cases, {"single_word": n_single, "multi_word": nm, "wellformed_chains": n_chain, "total": len(cases)}
 
 
 def judge(case, impl, model, spec=None):
